@@ -81,6 +81,10 @@ CORE: list[tuple[str, list]] = [
     # a name / override bound to a group whose elements may match empty (closure zero times, empty join, empty pattern)
     ('named_group_with_closure', [('start', S(N('x', GRP(S(T('a'), REP(T('b'))))), OPT(T('c'))))]),
     ('override_group_with_join', [('start', S(OV(GRP(S(T('a'), JOIN(T(','), T('b')), P('c?')))), OPT(T('a'))))]),
+    # a list-valued FIRST element (closure, list-valued rule) followed by an optional / choice group that contributes SEVERAL elements: the list stays one element
+    ('closure_then_multi_optional', [('start', S(REP(T('a')), OPT(S(T('b'), T('c')))))]),
+    ('rule_list_then_choice_group', [('start', S(C('r'), GRP(A(S(T('b'), T('c')), T('d'))))), ('r', S(T('a'), OPT(T('a'))))]),
+    ('named_closure_then_group', [('start', S(N('x', GRP(S(REP(T('a')), GRP(S(T('b'), T('c')))))), OPT(T('d'))))]),
     # optionals whose body can match empty and can also FAIL (lookaheads): "nullable" is not "cannot fail"; a failing body means the optional is skipped
     ('optional_lookahead', [('start', S(T('a'), OPT(AND(T('b'))), OPT(T('c'))))]),
     ('optional_neg_lookahead', [('start', S(T('a'), OPT(NOT(T('b'))), A(T('b'), T('c'))))]),
